@@ -161,6 +161,19 @@ def engine_work(run, eng):
                     viol(run, eng, "decode-padding-bits", f"{eng}: decode of {s!r} differs from its cleaned form {clean!r}", dict(input=s))
             except ValueError:
                 pass
+        # a final character outside the alphabet is an error, not something to repair
+        for badch in ("!", "\u00e9", " ", "~", "\x00"):
+            if badch in alphabet:
+                continue
+            for form, inp in (("str", body + badch), ("bytes", (body + badch).encode("latin-1"))):       # (one byte per character, so the length class stays the same)
+                for fname in ("repair_unused", "check_repair_unused"):
+                    try:
+                        r_ = getattr(e, fname)(inp)
+                        viol(run, eng, f"repair-invalid-final-char-accepted|{form}", f"{eng}.{fname}({inp!r}) returned {r_!r}; the last character is not in the alphabet", dict(input=repr(inp)))
+                    except ValueError:
+                        run.count("repair_invalid_refused")
+                    except Exception as ex:
+                        viol(run, eng, f"repair-invalid-final-char|{type(ex).__name__}", f"{eng}.{fname}({inp!r}) raised {type(ex).__name__}, not a value error", dict(input=repr(inp)))
         run.case((eng, "padding-bits", tail), dict(engine=eng, every_final_character=64, tail=tail))
     run.count("repair_checks", 128)
     # integers
@@ -221,6 +234,20 @@ def engine_work(run, eng):
         tables["sha512_crypt"] = (s2._512_transpose_map, 64)
     except Exception as ex:
         run.note(f"transpose tables not importable: {ex}")
+    # the smallest offset lists, and offsets handed over as a one-shot iterable
+    for tname, tmap, size in (("empty", [], 4), ("single", [2], 4), ("pair", [3, 0], 4), ("generator", None, 16), ("reversed-range", None, 16)):
+        data = H.pw_bytes(rng, size, "binary")
+        offs = list(tmap) if tmap is not None else list(range(size - 1, -1, -1))
+        arg = offs if tmap is not None else (iter(offs) if tname == "generator" else reversed(range(size)))
+        want = ref_encode(bytes(data[o] for o in offs), alphabet, big)
+        try:
+            got = e.encode_transposed_bytes(data, arg)
+        except Exception as ex:
+            viol(run, eng, f"transposed|{tname}|{type(ex).__name__}", f"{eng}.encode_transposed_bytes with the {tname} offset list raised {type(ex).__name__}: {ex}", dict(table=tname))
+            continue
+        run.count("transposed_small")
+        if got != want.encode():
+            viol(run, eng, f"transposed|{tname}", f"{eng}.encode_transposed_bytes(data, {tname} offsets) = {got!r}, reference {want!r}", dict(table=tname))
     for tname, (tmap, size) in tables.items():
         for _ in range(30):
             data = H.pw_bytes(rng, size, "binary")
@@ -298,7 +325,7 @@ def helpers(run):
                         continue
                     if back != data:
                         viol(run, "b32", f"decode|{label}|{form}", f"b32decode of the {label} spelling ({form}) does not give the data back", dict(input=inp))
-    for bad in (b"1", b"A9======", b"!!!!", "AAé"):
+    for bad in (b"1", b"A9======", b"!!!!", "AAé", "ABCDEFG\u0131", "\u017fBCDEFGH", "ABCDEF\ufb01", "ABCD\ufb06FGH", "abcdefg\u0131"):
         try:
             r = B.b32decode(bad)
             viol(run, "b32", "malformed-accepted", f"b32decode({bad!r}) returned {r!r}", dict(input=bad))
